@@ -137,3 +137,7 @@ func hMarshal(v interface{}) ([]byte, error) { return []byte("{}"), nil }
 
 // hLimit: the read rate limiter never throttles.
 func hLimit(l *rate.Limiter) bool { return false }
+
+// hBinaryMarshal stands in for kelindar/binary.Marshal (reflection) where only a survey
+// request body is built and the surveyor stub ignores it.
+func hBinaryMarshal(v interface{}) ([]byte, error) { return []byte{}, nil }
